@@ -96,30 +96,30 @@ func (s *Sim) exec(op Op) {
 			s.step(op.A)
 			return
 		}
-		for i := 0; i < 60; i++ {
+		// keep stepping until the actor is parked at the point; an actor that is not parked (still
+		// running, or blocked) is given up to `patience` in total to arrive, so that a slow machine
+		// does not cut a script short
+		patience := time.Now().Add(400 * time.Millisecond)
+		stepped := false
+		for i := 0; i < 80; i++ {
 			s.mu.Lock()
 			a := s.actors[op.A]
-			at := a != nil && a.parked && a.point == op.Until
-			can := a != nil && a.parked
+			parked := a != nil && a.parked
+			at := parked && a.point == op.Until
+			fin := a != nil && a.finished
 			s.mu.Unlock()
-			if at && i > 0 {
+			if (at && stepped) || fin {
 				return
 			}
-			if !can {
-				// not parked: wait a little for a spontaneous arrival
+			if !parked {
+				if time.Now().After(patience) {
+					return
+				}
 				s.waitArrivals()
-				s.mu.Lock()
-				can = a != nil && a.parked
-				at = can && a.point == op.Until
-				s.mu.Unlock()
-				if at {
-					return
-				}
-				if !can {
-					return
-				}
+				continue
 			}
 			s.step(op.A)
+			stepped = true
 		}
 	case "at": // wait until the actor is parked at the point without releasing it
 		for i := 0; i < 40; i++ {
